@@ -162,3 +162,30 @@ Theorem C08_mempool_order_full : forall vk (H : bytes -> bytes) K run cpb fl,
   | _, _ => False
   end.
 Proof. exact mempool_order_full. Qed.
+
+(* INTERNED_GENERATOR lifted.  What the code does (spendbundle_conditions.rs::calculate_base_cost, run_block_generator2):
+   the mempool path builds the generator tree of the bundle INCLUDING the (q . ((spends))) wrapper, interns it and charges
+   interned_vbytes * cost_per_byte; the block path decodes the generator it is given — the same tree — interns it and
+   charges the same amount; both subtract it from the budget they are passed.  The only difference left is the execution
+   cost of the quote: cost_block = cost_mempool + 20, no QUOTE_BYTES term.  Everything else as in C08_agree ([agree_full]
+   with overhead 20): same verdict, reserve fee, amounts, absolute locks, pairs and agg_sig_unsafe as Permutations, the
+   reported spends reversed and equal up to the two mempool-only flag bits, condition_cost equal, execution_cost + 20.
+   Stated exclusions: more than MAX_SPENDS_PER_BLOCK spends, back-reference-compressed generators. *)
+Theorem C08_agree_interned : forall valid_key (H : bytes -> bytes) K run sig_ok cpb fl gen_args,
+  (forall x args budget,
+     run (Pair (Atom [x01]) x) args budget = if budget <? 20 then Err CostExceeded else Ok (20, x)) ->
+  (forall p s, (exists c r, forall b, run p s b = (if b <? c then Err CostExceeded else Ok (c, r))) \/
+               (forall b, exists e, run p s b = Err e)) ->
+  (forall l l', Permutation l l' -> sig_ok l = sig_ok l') ->
+  forall spends g program max_cost,
+  Forall (good_spend H) spends ->
+  bf_interned fl = true ->
+  N.of_nat (length spends) <= MAX_SPENDS_PER_BLOCK ->
+  build_generator spends = Some g -> ser g = Some program ->
+  match mempool_path valid_key H K run sig_ok cpb fl spends max_cost,
+        run_block_generator2 valid_key H K run sig_ok cpb fl gen_args program (nlen program) (max_cost + 20) with
+  | Ok m, Ok b => agree_full 20 b m
+  | Err _, Err _ => True
+  | _, _ => False
+  end.
+Proof. exact agree_full_same_interned. Qed.
